@@ -474,6 +474,17 @@ def trajectory_case(api):
             api.check(P + "/script-and-engine (separate_data=%s)" % separate,
                       t2.script.rng_seed == tr.script.rng_seed and t2.script.init_state_processing == tr.script.init_state_processing
                       and t2.engine_description == tr.engine_description and t2.engine_option == tr.engine_option)
+        # relative path with a directory part, written from one working directory and read from another
+        os.makedirs(os.path.join(td, "run", "results"))
+        os.chdir(os.path.join(td, "run"))
+        r = api.call(lambda: O.save_rdtrajectory(tr, "results/traj1", separate_data=True))
+        api.check(P + "/save-ok (relative path with a directory)", r.ok, "raised %r" % (r.exc,))
+        os.chdir(cwd)
+        if r.ok:
+            b = api.call(lambda: O.load_rdtrajectory(os.path.join(td, "run", "results", "traj1.json")))
+            api.check(P + "/load-ok (relative path with a directory)", b.ok, "raised %r" % (b.exc,))
+            if b.ok:
+                api.check(P + "/data (relative path with a directory)", np.array_equal(np.array(b.value.data.value), np.array(tr.data.value)))
     finally:
         os.chdir(cwd)
         shutil.rmtree(td, ignore_errors=True)
